@@ -444,8 +444,8 @@ func findMaxOccurence(row []int) int {
 	}
 	var max int = 0
 	var maxElem int
-	for k, v := range countmap {
-		if v > max {
+	for _, k := range row {
+		if v := countmap[k]; v > max {
 			max = v
 			maxElem = k
 		}
